@@ -19,7 +19,7 @@ for pid in ALL:
         "thorough_cmd": "./check %s --tier thorough" % pid,
         "evidence_file": "evidence/%s.json" % pid,
         "replay_cmd_template": "./check replay {path}",
-        "engine": "+".join(e for e, _ in p["engines"]),
+        "engine": "+".join(dict.fromkeys(e[0] for e in p["engines"])),
         "level_claimed": {"category": "proof", "text": p["level_text"], "design_ref": "DESIGN.md section 4, " + pid},
         "level_note": p.get("level_note", TRUST),
         "technique": p.get("technique", "machine-checked Coq proof about an executable model + model/implementation correspondence check"),
@@ -30,7 +30,7 @@ m = {"version": 1,
      "setup_cmd": "./check setup",
      "hooks": {"guard": "CC_VERIF", "enable": "no hooks are needed: harnesses #include the library .c files (white box) and redirect malloc/calloc/free by macro; -DCC_VERIF is reserved and unused",
                "baseline_off_cmd": "tools/baseline.sh", "source_commits": [], "add_only": True},
-     "engines": [{"name": n, "path": "coq/%s" % d, "serves_properties": sorted(pid for pid, p in props.PROPS.items() if any(e == n for e, _ in p["engines"])),
+     "engines": [{"name": n, "path": "coq/%s" % d, "serves_properties": sorted(pid for pid, p in props.PROPS.items() if any(e[0] == n for e in p["engines"])),
                   "kind_free_text": "Gallina model + proofs, extracted OCaml interpreter, C harness harness/%s.c" % n} for n, d in sorted((n, m.DIR) for n, m in engines.ENGINES.items())],
      "checks": checks,
      "notes": "Known findings are listed in known_findings.txt; see DESIGN.md.",
